@@ -49,6 +49,12 @@ IsStrLit(t) == (t.k = "wild") \/ (t.k = "bytes" /\ t.form \in {"q", "r"})
 ItemOk(T, k) == IF T.k = "Int" THEN k \in {"int", "irange"}
                 ELSE IF T.k = "Ip" THEN k \in {"ip", "cidr", "iprange"}
                 ELSE k = "bytes"
+(* well-formedness of range and block items: ranges are written low..high within one address    *)
+(* family, a CIDR block has no bit set below its prefix length                                   *)
+ItemWF(t) == IF t.k = "irange" THEN IntCmp(t.lo, t.hi) <= 0
+             ELSE IF t.k = "iprange" THEN Len(t.lo) = Len(t.hi) /\ LexCmp(t.lo, t.hi) <= 0
+             ELSE IF t.k = "cidr" THEN t.len <= 8 * Len(t.v) /\ ~CidrHasHostBits(t.v, t.len)
+             ELSE TRUE
 (* single literal admissible for an ordering comparison *)
 LitOk(T, k) == IF T.k = "Int" THEN k = "int" ELSE IF T.k = "Ip" THEN k = "ip" ELSE k = "bytes"
 
@@ -59,7 +65,7 @@ RECURSIVE LexLogical(_, _, _), LexSimple(_, _, _), More(_, _, _, _, _, _), Inner
 (* ---- brace list  { item* } ------------------------------------------- *)
 LexItems(c, p, T, acc) ==
   IF TokK(c, p) = "rbr" THEN [ok |-> TRUE, items |-> acc, pos |-> p + 1]
-  ELSE IF ItemOk(T, AsBytes(Tok(c, p)).k) THEN LexItems(c, p + 1, T, Append(acc, MkRhs(AsBytes(Tok(c, p)))))
+  ELSE IF ItemOk(T, AsBytes(Tok(c, p)).k) /\ ItemWF(Tok(c, p)) THEN LexItems(c, p + 1, T, Append(acc, MkRhs(AsBytes(Tok(c, p)))))
   ELSE Fail
 
 (* ---- ComparisonExpr::lex_with_lhs ------------------------------------ *)
